@@ -377,13 +377,16 @@ PLANS["C08"] = {
             "run in a 1-thread pool and in pools of 2..32 threads (and more threads than rows/columns) with seeded spin/yield jitter at band "
             "starts (H4 hook), results compared bit for bit; strips: 1xN, Nx1, 2xN images with N in {255..257, 4095..4097, 65535..65537, 70000, "
             "92681, 92682, 131072, 300000} in pools of 2, 7, 32 threads; parts: the band-count functions on 10^6 size pairs incl. 2^k, 2^k+-1 up "
-            "to 2^32-1 (no panic, parts <= extent); thorough adds ThreadSanitizer; Miri (Tree Borrows + race detector) runs multi-band row "
+            "to 2^32-1 (no panic, parts <= extent); containers: cropped, nested and dynamic source/destination views in pools of 2/3/4/8 threads "
+            "against plain images in a 1-thread pool (the C13 workload); thorough adds ThreadSanitizer; Miri (Tree Borrows + race detector) runs multi-band row "
             "scenarios (must be clean) and column scenarios (D13b known finding) and column scenarios with the borrow tracker off (must be "
             "clean: no real access overlaps); non-trivial = a run that was split into > 1 band; distinct = distinct descriptor",
     "assumptions": CONV_ASSUME + ["schedules come from the OS scheduler, jitter and Miri's seeded scheduler; no exhaustive interleaving search"],
     "quick": [step("rel+rayon", "firv-threads", 6400), step("dbg+rayon", "firv-threads", 960),
               step("rel+rayon", "firv-threads", 0, sub="strips"), step("dbg+rayon", "firv-threads", 0, sub="strips"),
               step("rel+rayon", "firv-threads", 1000000, sub="parts", shards=4), step("dbg+rayon", "firv-threads", 1000000, sub="parts", shards=4),
+              # bands of cropped / nested / dynamic containers: the C13 container workload in pools of 2/3/4/8 threads against 1 thread
+              step("rel+rayon", "firv-views", 48000, sub="threads", prop_arg="C13"),
               step("miri+rayon", "firv-threads", 16, sub="miri_h", shards=16, timeout=3000),
               step("miri+rayon", "firv-threads", 4, sub="miri_v", shards=4, timeout=3000),
               step("miri+rayon", "firv-threads", 8, sub="miri_v", shards=8, timeout=3000, miriflags="-Zmiri-disable-stacked-borrows", tag="noborrow")],
@@ -391,6 +394,7 @@ PLANS["C08"] = {
                  step("tsan+rayon", "firv-threads", 2000, timeout=10000),
                  step("rel+rayon", "firv-threads", 0, sub="strips"), step("dbg+rayon", "firv-threads", 0, sub="strips"), step("tsan+rayon", "firv-threads", 0, sub="strips", timeout=10000),
                  step("rel+rayon", "firv-threads", 100000000, sub="parts"), step("dbg+rayon", "firv-threads", 10000000, sub="parts"),
+                 step("rel+rayon", "firv-views", 1000000, sub="threads", prop_arg="C13", timeout=7200),
                  step("miri+rayon", "firv-threads", 160, sub="miri_h", shards=16, timeout=20000),
                  step("miri+rayon", "firv-threads", 4, sub="miri_v", shards=4, timeout=3000),
                  step("miri+rayon", "firv-threads", 160, sub="miri_v", shards=16, timeout=20000, miriflags="-Zmiri-disable-stacked-borrows", tag="noborrow")],
